@@ -8,4 +8,11 @@ Alpha == {0, 1, 64, 128, 255}
 MC_RawDatas_q == UNION {[1..n -> Alpha] : n \in 0..3}
 MC_RawDatas_t == UNION {[1..n -> Alpha] : n \in 0..4}
 MC_None == {}
+(* Integers from every magnitude band of the encoding (1..5 bytes): low end, middle, high end, and
+   their complements.  With the fillers of 0, 1, 2 bytes in front and capacities 0..8 every one of
+   them is written with exactly len - 1, len and len + 1 bytes of room left. *)
+BandVals == {0, 63, 64, 4095, 4096, 5000, 8191, 8192, 524288, 600000, 1048575, 1048576,
+             67108864, 100000000, 134217727, 134217728, MAXINT}
+MC_Bands == {IntItem(v) : v \in BandVals} \cup {IntItem(Flip(v)) : v \in BandVals}
+MC_Fillers == {RawItem(<<>>), RawItem(<<9>>), StrItem(<<97>>)}
 =============================================================================
